@@ -131,6 +131,17 @@ def explore(ctx):
                         if g.shape != (2, 2) or not all(close(g[a][b], want[a][b], 1e-8) for a in range(2) for b in range(2)):
                             fails.append('mom2_along(rows) = %r, expected W M W^T with normalised rows %s' % (g.tolist(), want))
                             break
+            # rows along the coordinate axes, with signs and lengths (what v_rms and the sky projections pass, mirrored)
+            if nd >= 2:
+                ax_ = rng.sample(range(nd), 2)
+                rows = [[0] * nd, [0] * nd]
+                rows[0][ax_[0]] = rng.choice([1, -1, -2, 3])
+                rows[1][ax_[1]] = rng.choice([1, -1, 2, -3])
+                g = np.asarray(st.mom2_along(tuple(tuple(r) for r in rows)))
+                sg = [1 if r[a_] > 0 else -1 for r, a_ in zip(rows, ax_)]
+                want = [[float(m2[ax_[i]][ax_[j]]) * sg[i] * sg[j] for j in range(2)] for i in range(2)]
+                if g.shape != (2, 2) or not all(close(g[i][j], want[i][j], 1e-9) for i in range(2) for j in range(2)):
+                    fails.append('mom2_along(%s) = %r, expected the signed covariance entries %s' % (rows, g.tolist(), want))
             # principal axes: real, orthonormal, eigenvectors, ordered
             ax = st.paxes()
             A = np.array([[float(x) for x in r] for r in m2])
